@@ -16,6 +16,12 @@ Proof.
   destruct (last_obs _) as [o|]; [|discriminate]. destruct (so_after o) as [s2|] eqn:E; [|discriminate].
   intros H. exists o, s2. split; [reflexivity|]. split; [exact E|]. apply differ_b_sound, H.
 Qed.
+Lemma last_cycle_differs_pre_sound cfg ss : last_cycle_differs_pre_b cfg ss = true -> last_cycle_differs_pre cfg ss.
+Proof.
+  unfold last_cycle_differs_pre_b, last_cycle_differs_pre.
+  destruct (last_obs _) as [o|]; [|discriminate]. destruct (so_after o) as [s2|] eqn:E; [|discriminate].
+  intros H. exists o, s2. split; [reflexivity|]. split; [exact E|]. apply differ_b_sound, H.
+Qed.
 Lemma all_synced_sound d : all_synced_b d = true -> all_synced d.
 Proof.
   unfold all_synced_b, all_synced. intros H. apply Forall_forall. intros x Hx.
@@ -41,9 +47,12 @@ Definition w05_4 : list session := [([OCreateNode [sA]], EClose); ([ORotate; OCr
 Ltac witness05 :=
   split; [reflexivity|]; split; [vm_compute; reflexivity|]; apply last_cycle_differs_sound; vm_compute; reflexivity.
 
-Lemma w05_1_l : no_crash w05_1 = true /\ real_flags (engine_cfg MSync) w05_1 = [mkK true false false false]
-                /\ last_cycle_differs (engine_cfg MSync) w05_1.
-Proof. witness05. Qed.
+(** K1, repaired by 14ec16a: under the code before it the cycle differs, under the current code
+    the same history is clean and its cycle is exact *)
+Lemma w05_1_pre_l : no_crash w05_1 = true /\ last_cycle_differs_pre (engine_cfg MSync) w05_1.
+Proof. split; [reflexivity|]. apply last_cycle_differs_pre_sound. vm_compute. reflexivity. Qed.
+Lemma w05_1_now_l : forallb kclean (real_flags (engine_cfg MSync) w05_1) = true /\ last_cycle_exact_b (engine_cfg MSync) w05_1 = true.
+Proof. split; vm_compute; reflexivity. Qed.
 Lemma w05_2_l : no_crash w05_2 = true /\ real_flags (engine_cfg MSync) w05_2 = [mkK false true false false]
                 /\ last_cycle_differs (engine_cfg MSync) w05_2.
 Proof. witness05. Qed.
@@ -90,16 +99,32 @@ Lemma image_flags_sound cfg ss k a b :
   exists o, nth_error (fst (real_sessions cfg ss)) k = Some o
             /\ k06_2 crc32 dec_record_slice (so_disk o) = a /\ k06_5 crc32 dec_record_slice (so_disk o) = b.
 Proof. unfold image_flags. destruct (nth_error _ k) as [o|]; [|discriminate]. intros H. injection H as <- <-. eauto. Qed.
-Lemma w06_2_l :
-  ends_with_close w06_2
-  /\ (exists o, nth_error (fst (real_sessions (engine_cfg MNoSync) w06_2)) 1 = Some o
-                /\ k06_2 crc32 dec_record_slice (so_disk o) = true /\ k06_5 crc32 dec_record_slice (so_disk o) = true)
-  /\ last_cycle_differs (engine_cfg MNoSync) w06_2.
+
+(** K2, repaired by 3ca6f5b.  The witness for the code before it: the torn record is the ONLY
+    uncommitted one (so class K5 is not involved), the write after the recovery is lost all the
+    same.  Under the current code the torn tail is cut off and the same history ends exact. *)
+Definition w06_2p : list session :=
+  [([OCreateNode [sA]], EClose); ([OCreateNode [sB]], ECrash [(0, 40)]); ([OCreateNode [sL2]], EClose)].
+Lemma w06_2_pre_l :
+  ends_with_close w06_2p
+  /\ (exists o, nth_error (fst (real_sessions_pre (engine_cfg MNoSync) w06_2p)) 1 = Some o
+                /\ k06_2 crc32 dec_record_slice (so_disk o) = true /\ k06_5 crc32 dec_record_slice (so_disk o) = false)
+  /\ last_cycle_differs_pre (engine_cfg MNoSync) w06_2p.
 Proof.
   split; [exact I|]. split.
-  - apply image_flags_sound. vm_compute. reflexivity.
-  - apply last_cycle_differs_sound. vm_compute. reflexivity.
+  - assert (H : match nth_error (fst (real_sessions_pre (engine_cfg MNoSync) w06_2p)) 1 with
+                | Some o => (k06_2 crc32 dec_record_slice (so_disk o), k06_5 crc32 dec_record_slice (so_disk o))
+                | None => (false, true) end = (true, false)) by (vm_compute; reflexivity).
+    destruct (nth_error _ 1) as [o|]; [|discriminate]. injection H as H1 H2. exists o. auto.
+  - apply last_cycle_differs_pre_sound. vm_compute. reflexivity.
 Qed.
+Lemma w06_2_now_l : last_cycle_exact_b (engine_cfg MNoSync) w06_2p = true.
+Proof. vm_compute. reflexivity. Qed.
+
+(** the witness used before the repair (torn tail behind an intact uncommitted record): differs
+    under the old code, exact under the current one *)
+Lemma w06_2_old_l : last_cycle_differs_pre (engine_cfg MNoSync) w06_2 /\ last_cycle_exact_b (engine_cfg MNoSync) w06_2 = true.
+Proof. split; [apply last_cycle_differs_pre_sound; vm_compute; reflexivity|vm_compute; reflexivity]. Qed.
 
 (** K5: the crash loses nothing, recovery drops the two uncommitted records but leaves them in
     the log; the next clean close commits them *)
@@ -120,7 +145,7 @@ Qed.
 Definition w06_3_log : list record := [CreateNode 0 [sA]; CreateNode 1 [sB]; CreateNode 2 [sC]; TxCommit 2].
 Definition w06_3_ops : list wop :=
   [WLog (CreateNode 0 [sA]); WLog (CreateNode 1 [sB]); WRotate; WLog (CreateNode 2 [sC]); WLog (TxCommit 2)].
-Definition w06_3_disk : disk := wdrop (wrun crc32 enc_record (engine_cfg MNoSync) (wopen empty_disk) w06_3_ops).
+Definition w06_3_disk : disk := wdrop (wrun crc32 enc_record (engine_cfg MNoSync) (wopen crc32 empty_disk) w06_3_ops).
 Definition w06_3_img : disk := cut_disk [(0, 23)] w06_3_disk.
 Definition w06_3_got : list record := [CreateNode 0 [sA]; CreateNode 2 [sC]; TxCommit 2].
 
@@ -173,15 +198,19 @@ Proof.
   apply imported_differs_sound. vm_compute. reflexivity.
 Qed.
 
-(** K2: a valid (empty) snapshot followed by a byte that belongs to nothing *)
+(** K2 (repaired by 0d0a061): a valid (empty) snapshot followed by a byte that belongs to nothing *)
 Definition w07_2 : bytes := [1; 0; 0; 255].
-Lemma w07_2_l :
+Lemma w07_2_pre_l :
   dec_snapshot w07_2 = Some (mkSnap 1 [] [], 3%nat) /\ k07_2 w07_2 3 = true
-  /\ import dec_snapshot w07_2 = IOk empty_store.
+  /\ import_pre dec_snapshot w07_2 = IOk empty_store.
 Proof. split; [vm_compute; reflexivity|]. split; vm_compute; reflexivity. Qed.
+Lemma w07_2_now_l : import dec_snapshot w07_2 = IErr.
+Proof. vm_compute. reflexivity. Qed.
 
-(** K3: a snapshot whose single node carries the identifier u64::MAX *)
+(** K3 (repaired by 1b18953): a snapshot whose single node carries the identifier u64::MAX *)
 Definition w07_3_snap : snapshot := mkSnap 1 [(2 ^ 64 - 1, [sA], [])] [].
 Definition w07_3 : bytes := enc_snapshot w07_3_snap.
-Lemma w07_3_l : import dec_snapshot w07_3 = IPanic /\ dec_snapshot w07_3 = Some (w07_3_snap, length w07_3) /\ k07_3 w07_3_snap = true.
+Lemma w07_3_pre_l : import_pre dec_snapshot w07_3 = IPanic /\ dec_snapshot w07_3 = Some (w07_3_snap, length w07_3) /\ k07_3 w07_3_snap = true.
 Proof. split; [vm_compute; reflexivity|]. split; vm_compute; reflexivity. Qed.
+Lemma w07_3_now_l : import dec_snapshot w07_3 = IOk (build w07_3_snap) /\ s_nn (build w07_3_snap) = 2 ^ 64 - 1.
+Proof. split; vm_compute; reflexivity. Qed.
